@@ -14,7 +14,7 @@ use crate::{
 
 pub struct C07;
 
-pub const FAMILIES: &[(&str, u64)] = &[("lazy", 6), ("lazy-hints", 3), ("tiny", 2), ("tiny-hints", 1), ("medium", 1)];
+pub const FAMILIES: &[(&str, u64)] = &[("lazy", 6), ("lazy-hints", 3), ("tiny", 2), ("tiny-hints", 1), ("medium", 1), ("many", 1)];
 
 impl Monitor for C07 {
     type Case = SolverCase;
